@@ -238,6 +238,7 @@ struct DirectHost {
 
 impl DirectHost {
     fn new(cmd: &Cmd, canon: bool) -> Self {
+        reset_abort_table();
         let mut aborts: Aborts = vec![];
         let c = build(cmd, &Env::default(), &mut aborts);
         DirectHost { cmd: c, aborts, reqs: vec![], canon }
@@ -293,6 +294,7 @@ impl Host for DirectHost {
 const PROBE_TAG: u32 = 999;
 
 fn reset_app(prog: Prog) {
+    reset_abort_table();
     PROGRAM.with(|p| *p.borrow_mut() = prog);
     ABORTS.with(|a| a.borrow_mut().clear());
     REENTRANT.with(|r| *r.borrow_mut() = false);
